@@ -1378,6 +1378,41 @@ def scan_proof_fns(woven, rel, shift, anchors):
 BASELINE = {}
 
 
+def fn_hashes(repo):
+    """{"src/file.rs::Type::name": sha256 of the function's significant token stream} for every non-test fn"""
+    out = {}
+    for rel in SRC_FILES:
+        sp = os.path.join(repo, rel)
+        if not os.path.exists(sp):
+            continue
+        toks = lex(open(sp, encoding="utf-8").read())
+
+        def walk(items, prefix):
+            for it in items:
+                if it.cfg_test:
+                    continue
+                if it.kind == "fn" and it.open >= 0:
+                    key = (prefix + "::" if prefix else "") + it.name
+                    out["%s::%s" % (rel, key)] = hashlib.sha256(norm(toks[it.kw:it.close + 1]).encode()).hexdigest()[:16]
+                elif it.kind == "impl":
+                    walk(it.children, it.header)
+                elif it.kind == "mod":
+                    walk(it.children, prefix)
+        walk(parse_items(toks, 0, len(toks)), "")
+    return out
+
+
+def pinned_changed(repo, contracts_dir=None):
+    """pinned (not Verus-verified) functions whose token stream differs from the recorded baseline"""
+    bp = os.path.join(contracts_dir or CONTRACTS, "anchor_baseline.json")
+    base = json.load(open(bp)).get("__pinned__", {}) if os.path.exists(bp) else {}
+    try:
+        cur = fn_hashes(repo)
+    except Exception:
+        return []
+    return sorted(k for k in base if cur.get(k) != base[k])
+
+
 def weave_tree(repo, out, extra_modules=None, contracts_dir=CONTRACTS, vacuity=False, record_baseline=False):
     """weave repo/src into out/src. returns anchors dict."""
     global BASELINE
@@ -1472,8 +1507,15 @@ def weave_tree(repo, out, extra_modules=None, contracts_dir=CONTRACTS, vacuity=F
         all_specs[rel] = fnspecs
         scan_proof_fns(woven, rel, shift, anchors)
     unc = sorted("%s::%s" % (f["file"], f["key"]) for f in anchors["functions"] if not f["contracted"])
+    # functions whose bodies Verus does not verify (external_body: contract assumed; external /
+    # uncontracted: outside): their token streams are pinned, so that an edit is never passed over
+    # silently by a tier that does not run the Kani units (or, for reviewed-only glue, by any tier)
+    unverified = set("%s::%s" % (f["file"], f["key"]) for f in anchors["functions"] if f["mode"] in ("external", "external_body") or not f["contracted"])
+    allh = fn_hashes(repo)
+    pinned = dict((k, v) for k, v in allh.items() if k in unverified)
     if record_baseline:
         new_baseline["__uncontracted__"] = unc
+        new_baseline["__pinned__"] = pinned
         json.dump(new_baseline, open(bp, "w"), indent=1, sort_keys=True)
     else:
         # functions that exist in this tree, have no contract and did not exist on the tree the
@@ -1481,6 +1523,8 @@ def weave_tree(repo, out, extra_modules=None, contracts_dir=CONTRACTS, vacuity=F
         # a caller is a missing contract, not a verdict about the code (verus_run -> undecided)
         known = set(BASELINE.get("__uncontracted__", []))
         report["new_functions"] = [u for u in unc if u not in known] if known else []
+        base_pinned = BASELINE.get("__pinned__", {})
+        report["pinned_changed"] = sorted(k for k in base_pinned if pinned.get(k) != base_pinned[k])
     # vacuity probes: one proof fn per contracted function, `requires` = its preconditions,
     # `ensures false`; every probe must FAIL (a probe that verifies = contradictory precondition)
     probes = report.get("vacuity", [])
